@@ -84,6 +84,7 @@ class BatchStatistics:
         self.rd = ReachingDefs(fi.node)
         self.data = set(data_params)
         self._loop_vars()
+        self.rowvars = self._row_scope() - self.data
 
     def _loop_vars(self):
         """names bound by `for i in range(...)` / `for i, x in enumerate(...)`: scalars"""
@@ -94,6 +95,75 @@ class BatchStatistics:
                     self.scalars.add(n.target.id)
                 if n.iter.func.id == "enumerate" and isinstance(n.target, ast.Tuple) and n.target.elts and isinstance(n.target.elts[0], ast.Name):
                     self.scalars.add(n.target.elts[0].id)
+
+    # ------------------------------------------------------------ row scope
+    def _row_scope(self):
+        """names that denote (a value derived from) ONE row or element: targets of
+        loops / comprehensions that iterate over rows, and locals computed from
+        such names only.  A reduction over such a value stays inside the row."""
+        fn = self.fi.node
+        rv: Set[str] = set()
+
+        def transposed(it):
+            for n in ast.walk(it):
+                if isinstance(n, ast.Attribute) and n.attr in ("T", "transpose", "columns", "items", "iteritems"):
+                    # X.T, X.transpose(): columns; dict.items() of a row is handled below
+                    if n.attr in ("items", "iteritems"):
+                        continue
+                    return True
+                if isinstance(n, ast.Starred):
+                    return True  # zip(*rows)
+            return False
+
+        for n in own_nodes(fn):
+            if isinstance(n, ast.For) and not transposed(n.iter):
+                rv |= {t.id for t in ast.walk(n.target) if isinstance(t, ast.Name)}
+        for n in ast.walk(fn):
+            if isinstance(n, ast.comprehension) and not transposed(n.iter):
+                rv |= {t.id for t in ast.walk(n.target) if isinstance(t, ast.Name)}
+        # a loop over the items of a container that is not itself row-scoped
+        # (for k, v in batch_dict.items()) is a loop over the batch: handled by
+        # the data dependence of the names, not here
+        assigns: Dict[str, List[ast.AST]] = {}
+        for n in own_nodes(fn):
+            if isinstance(n, ast.Assign) and len(n.targets) == 1 and isinstance(n.targets[0], ast.Name):
+                assigns.setdefault(n.targets[0].id, []).append(n)
+            elif isinstance(n, (ast.Assign, ast.AugAssign, ast.AnnAssign)):
+                for t in (n.targets if isinstance(n, ast.Assign) else [n.target]):
+                    for x in ast.walk(t):
+                        if isinstance(x, ast.Name) and isinstance(x.ctx, ast.Store):
+                            assigns.setdefault(x.id, []).append(None)
+        params = set(self.rd.params)
+        changed = True
+        while changed:
+            changed = False
+            for name, sts in assigns.items():
+                if name in rv or name in params or any(s is None for s in sts):
+                    continue
+                ok = True
+                some = False
+                for st in sts:
+                    at = self.rd.node_of(st)
+                    if at is None:
+                        continue
+                    for x in ast.walk(st.value):
+                        if isinstance(x, ast.Name) and isinstance(x.ctx, ast.Load) and self.rd.depends_on(x, at, self.data):
+                            if x.id in rv:
+                                some = True
+                            else:
+                                ok = False
+                if ok and some:
+                    rv.add(name)
+                    changed = True
+        return rv
+
+    def batch_dependent(self, e: ast.AST, at) -> bool:
+        """the value depends on the data through something else than one row"""
+        for x in ast.walk(e):
+            if isinstance(x, ast.Name) and isinstance(x.ctx, ast.Load) and x.id not in self.rowvars:
+                if self.rd.depends_on(x, at, self.data) or (x.id in self.data and not self.rd.reaching(x.id, at)):
+                    return True
+        return False
 
     # ------------------------------------------------------------ reductions
     def reductions_in(self, expr: ast.AST, at) -> List[Tuple[ast.Call, str]]:
@@ -134,6 +204,8 @@ class BatchStatistics:
                 continue
             if not self.rd.depends_on(operand, at, self.data):
                 continue
+            if not self.batch_dependent(operand, at):
+                continue  # a reduction inside one row / element
             out.append((c, name))
         return out
 
@@ -259,3 +331,113 @@ def _count_like(e: ast.AST, bs: "BatchStatistics", at, depth=0) -> bool:
                 vals += [(v, dn) for v in _value_exprs(dn, e.id)]
             return bool(vals) and all(_count_like(v, bs, dn, depth + 1) for v, dn in vals)
     return False
+
+
+# ---------------------------------------------------------------- which parameters carry the batch
+def _scoped_names(expr: ast.AST):
+    """names bound inside `expr` itself (lambda parameters, comprehension targets)"""
+    bound = set()
+    for n in ast.walk(expr):
+        if isinstance(n, ast.Lambda):
+            a = n.args
+            bound |= {x.arg for x in a.posonlyargs + a.args + a.kwonlyargs}
+        if isinstance(n, ast.comprehension):
+            bound |= {t.id for t in ast.walk(n.target) if isinstance(t, ast.Name)}
+    return bound
+
+
+def _enclosing_binders(node: ast.AST, stop: ast.AST):
+    """(kind, node) of the lambdas / comprehensions enclosing `node` below `stop`"""
+    out = []
+    cur = getattr(node, "_parent", None)
+    while cur is not None and cur is not stop:
+        if isinstance(cur, (ast.Lambda, ast.ListComp, ast.SetComp, ast.DictComp, ast.GeneratorExp)):
+            out.append(cur)
+        cur = getattr(cur, "_parent", None)
+    return out
+
+
+def arg_is_data(rd: ReachingDefs, fn: ast.AST, arg: ast.AST, at, data: Set[str], depth: int = 0) -> bool:
+    """does the argument expression depend on the data parameters of the calling
+    function?  Lambda parameters count as data (the rows a callback receives);
+    a comprehension variable is data when its iterable is."""
+    if rd.depends_on(arg, at, data):
+        return True
+    if depth > 4:
+        return False
+    names = {n.id for n in ast.walk(arg) if isinstance(n, ast.Name) and isinstance(n.ctx, ast.Load)}
+    for b in _enclosing_binders(arg, fn):
+        if isinstance(b, ast.Lambda):
+            a = b.args
+            pos = a.posonlyargs + a.args
+            dflt = dict(zip([x.arg for x in pos[len(pos) - len(a.defaults) :]], a.defaults))
+            dflt.update({x.arg: d for x, d in zip(a.kwonlyargs, a.kw_defaults) if d is not None})
+            for x in pos + a.kwonlyargs:
+                if x.arg not in names:
+                    continue
+                if x.arg not in dflt:
+                    return True  # a value the caller of the callback supplies
+                if arg_is_data(rd, fn, dflt[x.arg], at, data, depth + 1):
+                    return True  # `lambda v, cv=c:` captures c
+        else:
+            for g in b.generators:
+                tn = {t.id for t in ast.walk(g.target) if isinstance(t, ast.Name)}
+                if names & tn and arg_is_data(rd, fn, g.iter, at, data, depth + 1):
+                    return True
+    return False
+
+
+def data_parameters(repo, roots, funcs, resolve_call, bind) -> Dict[str, Set[str]]:
+    """qualname -> parameters that may carry (part of) the batch, propagated from
+    the entry points through resolved calls; a function of the reachable set that
+    no resolved call reaches keeps all its parameters (callbacks)."""
+    from engine.src import own_nodes_incl_lambda
+
+    by_q = {f.qualname: f for f in funcs}
+    data: Dict[str, Set[str]] = {r.qualname: {p for p in r.named_params if p not in ("self", "cls")} for r in roots}
+    called: Set[str] = set()
+    rds: Dict[str, ReachingDefs] = {}
+    work = [r.qualname for r in roots]
+    rounds = 0
+    while work and rounds < 2000:
+        rounds += 1
+        q = work.pop()
+        f = by_q.get(q)
+        if f is None:
+            continue
+        dset = data.get(q, set())
+        bs = BatchStatistics(f, dset)
+        rd = rds[q] = bs.rd
+        for c in own_nodes_incl_lambda(f.node):
+            if not isinstance(c, ast.Call):
+                continue
+            g = resolve_call(repo, f, c)
+            if g is None or g.qualname not in by_q:
+                continue
+            called.add(g.qualname)
+            at = rd.node_of(c)
+            if at is None:
+                continue
+            b = bind(c, g, f)
+            new = set()
+            for prm, arg in b.items():
+                if prm in ("self", "cls"):
+                    continue
+                if arg_is_data(rd, f.node, arg, at, dset) and (bs.batch_dependent(arg, at) or _scoped_names(f.node) & {x.id for x in ast.walk(arg) if isinstance(x, ast.Name)} - bs.rowvars):
+                    new.add(prm)
+            # free variables of a nested callee that are data in the caller
+            if g.parent is not None and g.parent.qualname == q:
+                for n in ast.walk(g.node):
+                    if isinstance(n, ast.Name) and isinstance(n.ctx, ast.Load) and n.id in dset and n.id not in g.named_params:
+                        new.add(n.id)
+            old = data.setdefault(g.qualname, set())
+            if not new <= old:
+                old |= new
+                work.append(g.qualname)
+            elif g.qualname not in rds:
+                rds[g.qualname] = ReachingDefs(g.node)
+                work.append(g.qualname)
+    for f in funcs:
+        if f.qualname not in called and f.qualname not in data:
+            data[f.qualname] = {p for p in f.named_params if p not in ("self", "cls")}
+    return data
